@@ -13,6 +13,7 @@ from .num import XR, fin, pinf, ninf, xval, is_fin, I, R, B
 from .engine import Unsupported, Val, State, Frame, fresh, sort_of, reflike, str_id, cls_id, MODS
 from .interp import PathEnd, ty_join, UNK, clsname, parse_expr
 
+MEMBER_FACTS = __import__("os").environ.get("PYVC_NOMEMBER") is None
 lsum = z3.Function("lsum", z3.ArraySort(I, R), I, R)
 lvar = z3.Function("lvar", z3.ArraySort(I, R), I, R)
 
@@ -196,6 +197,12 @@ class Ev:
                 self.st.pc.append(z3.Implies(z3.And(*self.guard), t > 0) if self.guard else t > 0)
             else:
                 self.facts.append(z3.Implies(obj.t > 0, t > 0))
+        if (K, fname) in self.ct.field_inv and not (self.u.is_init_of(K) and not self.spec):
+            f = self.ct.field_inv[(K, fname)][1](t)
+            if not self.spec:
+                self.st.pc.append(z3.Implies(z3.And(*self.guard), f) if self.guard else f)
+            else:
+                self.facts.append(z3.Implies(obj.t > 0, f))
         return Val(t, fty)
 
     def wr_field(self, obj, fname, v, node):
@@ -207,6 +214,10 @@ class Ev:
             raise Unsupported("function valued field %s" % fname)
         A = self.u.get_arr(self.st, key, fty)
         self.it.frame_check(self.st, key, obj.t, self.u.where(node, self.frame), self.frame)
+        if (K, fname) in self.ct.field_inv:
+            # immutable field with an invariant: written only by a constructor, and the invariant is checked there
+            self.need(z3.BoolVal(self.frame.fdef.name == "__init__"), "immutable-field:" + fname, node, props=("C01", "C14"))
+            self.need(self.ct.field_inv[(K, fname)][1](v.t), "field-invariant:" + fname, node, props=("C01", "C02", "C03"))
         self.u.put_arr(self.st, key, z3.Store(A, obj.t, v.t))
         if (K, fname) in self.ct.late:
             dk = "def:%s.%s" % (K, fname)
@@ -241,8 +252,15 @@ class Ev:
         if check:
             self.need(z3.And(i.t >= 0, i.t < n), "index", node)
         t = self.lelts(L)[i.t]
-        if not self.spec and reflike(el) and not el.opt:
-            f = z3.Implies(z3.And(i.t >= 0, i.t < n), t > 0)
+        if not self.spec and reflike(el):
+            facts = []
+            if not el.opt:
+                facts.append(t > 0)
+            # an element read at a valid position is a member of the list: one instance of the (true) statement
+            # "every stored element is found by the ghost inverse index" -- instances only, never the quantified axiom
+            if MEMBER_FACTS:
+                facts.append(self.contains(L, Val(t, el)))
+            f = z3.Implies(z3.And(i.t >= 0, i.t < n), z3.And(*facts))
             self.st.pc.append(z3.Implies(z3.And(*self.guard), f) if self.guard else f)
         return Val(t, el)
 
